@@ -13,6 +13,8 @@ import (
 
 type modelFn func(fr *frame, args []Value) Value
 
+var extraModels []func(m map[string]modelFn)
+
 var debugOut io.Writer = os.Stderr
 
 func term(v Value) *smt.Term { return v.(*smt.Term) }
@@ -44,6 +46,9 @@ func buildModels() map[string]modelFn {
 	registerJSON(m)
 	registerFS(m)
 	registerTime(m)
+	for _, f := range extraModels {
+		f(m)
+	}
 	return m
 }
 
